@@ -295,17 +295,20 @@ def structural_edit(doc: dict, kind: Optional[str] = None) -> st.SearchStrategy:
 
 
 # ---- (d) schema-violating single edits -----------------------------------------------------------------
+VIOLATING_KINDS = [
+    "request-no-result", "request-no-direction", "bad-direction", "sincetags-not-strings", "tuple-items-string",
+    "struct-extra-key", "prop-extra-key", "prop-no-type", "optional-not-bool", "enum-no-values", "enum-bad-base",
+    "alias-no-type", "metadata-extra", "base-bad-name", "top-extra-key", "method-not-string", "no-structures",
+    "struct-no-name", "documentation-not-string",
+]
+
+
 def violating_edit(doc: dict, kind: Optional[str] = None) -> st.SearchStrategy:
     @st.composite
     def _s(draw):
         d = copy.deepcopy(doc)
         pick = lambda seq: seq[draw(st.integers(0, len(seq) - 1))]
-        k = kind or draw(st.sampled_from([
-            "request-no-result", "request-no-direction", "bad-direction", "sincetags-not-strings", "tuple-items-string",
-            "struct-extra-key", "prop-extra-key", "prop-no-type", "optional-not-bool", "enum-no-values", "enum-bad-base",
-            "alias-no-type", "metadata-extra", "base-bad-name", "top-extra-key", "method-not-string", "no-structures",
-            "struct-no-name", "documentation-not-string",
-        ]))
+        k = kind or draw(st.sampled_from(VIOLATING_KINDS))
         if k == "request-no-result":
             pick(d["requests"]).pop("result", None)
         elif k == "request-no-direction":
@@ -450,6 +453,19 @@ def run(ctx: Ctx) -> None:
             cause = f"type-kind:{mk.group(1)}" if ("Unknown LSP type" in msg and mk) else re.sub(r"\{.*\}|'[^']*'(?= object)", "..", msg)[:60]
             ctx.finding(("load-raises:" + type(e).__name__, "LSPModel", cause),
                         f"schema-valid document cannot be loaded: {msg[:200]}", {"edits": edits})
+            if cause.startswith("type-kind:") and not label.endswith("(kinds replaced)"):
+                # the rest of the document is still worth reading back: the same document with the two unloadable literal
+                # kinds replaced by a base type
+                def replaced(x: Any) -> Any:
+                    if isinstance(x, dict):
+                        if x.get("kind") in ("integerLiteral", "booleanLiteral"):
+                            return {"kind": "base", "name": "string"}
+                        return {k_: replaced(v_) for k_, v_ in x.items()}
+                    if isinstance(x, list):
+                        return [replaced(v_) for v_ in x]
+                    return x
+                counters["lossless:retried-without-literal-kinds"] += 1
+                return check_lossless(replaced(doc), edits, label + "(kinds replaced)")
             return None
         changed = first_diff(doc, given)
         if changed:
@@ -461,6 +477,15 @@ def run(ctx: Ctx) -> None:
             ctx.finding(("not-lossless", generalise(diff.split(":")[0]), label), diff, {"edits": edits})
         if edits:
             distinct.add(h(edits))
+            # "two loads of the same document compare equal" - for every generated document, not only the committed one
+            try:
+                again = model.LSPModel(**copy.deepcopy(doc))
+                eq, ne = (spec == again), (spec != again)
+                if eq is not True or ne is not False:
+                    ctx.finding(("same-loads-unequal", label, "-"), "two loads of one generated document do not compare equal", {"edits": edits})
+            except Exception as e:
+                ctx.finding(("compare-raises:" + type(e).__name__, label, "-"), f"second load / comparison of a generated document: {e}", {"edits": edits})
+            counters[f"second-load:{label}"] += 1
         return spec
 
     # (a) lossless: committed, evolved, extra mutations
@@ -566,11 +591,19 @@ def run(ctx: Ctx) -> None:
     for fixed_kind in ("request-no-result", "sincetags-not-strings", "tuple-items-string"):
         mini(violating_edit(base, fixed_kind), 1, (ctx.seed, "C18", "gate", fixed_kind), lambda x: gate_cases.append(x))
     mini(violating_edit(base), n_gate, (ctx.seed, "C18", "gate"), lambda x: gate_cases.append(x))
+    n_random = len(gate_cases)
+    # the kinds of violation are a finite list: every kind once (a later example than the simplest one), for the python plugin
+    for vk in VIOLATING_KINDS:
+        got_: List[Tuple[str, dict]] = []
+        mini(violating_edit(base, vk), 2, (ctx.seed, "C18", "gate-all", vk), lambda x: got_.append(x))
+        gate_cases.append(got_[-1])
     plugins = ["python", "rust", "dotnet", "testdata"]
     jobs = []
     for i, (kind, bad) in enumerate(gate_cases):
         for j, plugin in enumerate(plugins):
             pos = (i + j) % 3
+            if i >= n_random and plugin != "python":
+                continue  # (the enumeration of all kinds runs through one plugin: the gate sits in front of all of them)
             if ctx.quick and plugin in ("dotnet", "testdata") and i % 3:
                 continue  # the slow plugins on a third of the cases in the quick tier
             jobs.append((kind, bad, plugin, pos, (i % 5 == 0 and plugin == "python")))
